@@ -37,7 +37,9 @@ class P:
         for s in strs:
             items.append(("lit", s)); items.append(("bin", "+", ("lit", s), ("lit", s))); items.append(("map", [(("lit", s), ("lit", s))]))
         cases = flow.mk_cases("shapes", [("RT:" + hx(progs.render_full(t)), None) for t in items])
-        chains = ["a;b", "a=1;b=a+1;b", "1;2;3;", "[1,2,];{1:2,}", "f();g(1)", ""]
+        chains = ["a;b", "a=1;b=a+1;b", "1;2;3;", "[1,2,];{1:2,}", "f();g(1)", "",
+                  # sub-trees equal as numbers, different as text: each literal is written as it was read
+                  "a * 0.10 > 5 ? a * 0.1 : 0", "[[1], [1.0], [1.00], [1]]", "f(1.50) + f(1.5) + f(1.50)", "-(1.0) + -(1)", "{1: [2.0], 1.0: [2]}"]
         cases += flow.mk_cases("chains", ["RT:" + hx(s) for s in chains])
         # operators spelled as words (registered at run time: postfix, prefix, infix) directly in front of every separator the
         # printer writes without a blank ( , ; : ) ] } ): the rendered text must read back as the same tree
@@ -66,6 +68,10 @@ class P:
                     ops_.append("REGI:%s:%x:0:%d:0" % (hx(w), pr, 1 if right else 0))
                 for _k in range(3):
                     ops_.append("RT:" + hx(progs.render_full(tree(rng.choice([2, 3])))))
+            if rng.random() < 0.5:
+                # renderings on two persistent threads, registrations on a third: what a thread remembered about an operator
+                # must not survive a registration made by ANOTHER thread
+                ops_ = [("@%s/%s" % (rng.choice("wv"), o)) if o.startswith("RT:") else ("@m/" + o) for o in ops_]
             cases += flow.mk_cases("rereg", [" ".join(ops_)], start=len([c for c in cases if c.gen == "rereg"]))
         # trees as high as the parser returns them: their rendering must still read back as the same tree
         deep = []
@@ -124,7 +130,7 @@ class P:
         return None
 
     def oracle(self, case, impl):
-        outs = [o for o, op in zip(impl.split(" "), case.line.split(" ")[1:]) if op.startswith("RT:")]
+        outs = [o for o, op in zip(impl.split(" "), case.line.split(" ")[1:]) if op.split("/", 1)[-1].startswith("RT:")]
         for o in outs[:-1]:
             v, d = self.oracle1(o)
             if v != "ok": return v, d
